@@ -164,7 +164,7 @@ def table(state: StateBlock, startLine: int, endLine: int, silent: bool) -> bool
         # note in markdown-it this map was removed in v12.0.0 however, we keep it,
         # since it is helpful to propagate to children tokens
         token.map = [startLine, startLine + 1]
-        token.content = columns[i].strip()
+        token.content = columns[i].strip(" \t")
         token.children = []
 
         token = state.push("th_close", "th", -1)
@@ -213,7 +213,7 @@ def table(state: StateBlock, startLine: int, endLine: int, silent: bool) -> bool
             # since it is helpful to propagate to children tokens
             token.map = [nextLine, nextLine + 1]
             try:
-                token.content = columns[i].strip() if columns[i] else ""
+                token.content = columns[i].strip(" \t") if columns[i] else ""
             except IndexError:
                 token.content = ""
             token.children = []
